@@ -3,6 +3,8 @@ Driver/Ops.lean — dispatch of protocol operations to the executable models and
 -/
 import MsmVerif.Driver.JsonUtil
 import MsmVerif.Model.Coring
+import MsmVerif.Model.Msm
+import MsmVerif.Model.Events
 
 open Lean
 
@@ -32,12 +34,74 @@ def opCoringKernel (j : Json) : Except String Json := do
     ("model", match r with | some l => Json.mkObj [("ok", ofInts l)] | none => Json.mkObj [("err", "LagtimeError")]),
     ("first_core", ofInt fc)]
 
+/-- C01: `estimate_markov_model` -/
+def opEstimate (j : Json) : Except String Json := do
+  let ts ← trajs? (← field j "trajs")
+  let lag ← nat? (← field j "lag")
+  let model := Msm.estimate ts lag
+  let mj := ofExcept (fun (r : Msm.NatMat × Msm.RatMat × List Int) =>
+      Json.mkObj [("counts", ofList ofNats r.1), ("T", ofRatMat r.2.1), ("states", ofInts r.2.2)]) model
+  match j.getObjVal? "obs" with
+  | .ok o =>
+    let obs ← except? (fun v => do
+      let st ← ints? (← field v "states")
+      let T ← ratMat? (← field v "T")
+      return (st, T)) o
+    let h := match obs with
+      | .ok (st, T) => Msm.holds ts lag st T
+      | .error _ => false
+    return Json.mkObj [("model", mj), ("holds", Json.bool h)]
+  | .error _ => return Json.mkObj [("model", mj)]
+
+def ofPathTuples (l : List (List Int × Nat)) : Json :=
+  ofList (fun (p : List Int × Nat) => Json.arr #[ofInts p.1, ofNat p.2]) l
+
+def pathTuples? (j : Json) : Except String (List (List Int × Nat)) := do
+  (← arr? j).mapM (fun e => do
+    let a ← arr? e
+    match a with
+    | [p, d] => return (← ints? p, ← nat? d)
+    | _ => throw "bad path tuple")
+
+/-- C06: `md.estimate_waiting_times` -/
+def opMdWt (j : Json) : Except String Json := do
+  let ts ← trajs? (← field j "trajs")
+  let start ← ints? (← field j "start")
+  let final ← ints? (← field j "final")
+  let model := Events.mdWaitingTimes ts start final
+  let base := [("model", ofExcept ofNats model)]
+  match j.getObjVal? "obs" with
+  | .ok o =>
+    let obs ← except? nats? o
+    return Json.mkObj (base ++ [("holds", Json.bool (Events.holdsWt ts start final obs))])
+  | .error _ => return Json.mkObj base
+
+/-- C06: `md.estimate_paths` (tuples in order of occurrence) -/
+def opMdPaths (j : Json) : Except String Json := do
+  let ts ← trajs? (← field j "trajs")
+  let start ← ints? (← field j "start")
+  let final ← ints? (← field j "final")
+  let model := Events.mdPaths ts start final
+  let base := [("model", ofExcept ofPathTuples model)]
+  match j.getObjVal? "obs" with
+  | .ok o =>
+    let obs ← except? (fun v => do
+      (← arr? v).mapM (fun e => do
+        match (← arr? e) with
+        | [p, d] => return (← ints? p, ← nats? d)
+        | _ => throw "bad dict item")) o
+    return Json.mkObj (base ++ [("holds", Json.bool (Events.holdsPaths ts start final obs))])
+  | .error _ => return Json.mkObj base
+
 def dispatch (j : Json) : Except String Json := do
   let op ← str? (← field j "op")
   match op with
   | "ping" => return Json.mkObj [("pong", Json.bool true)]
   | "coring" => opCoring j
   | "coring_kernel" => opCoringKernel j
+  | "estimate" => opEstimate j
+  | "md_wt" => opMdWt j
+  | "md_paths" => opMdPaths j
   | _ => throw s!"unknown op {op}"
 
 end MsmVerif.Driver
